@@ -21,6 +21,16 @@ class InjectedPluginError(Exception):
     pass
 
 
+# called just before an injected plugin failure is raised (the runner logs an 'upexc' marker)
+CRASH_HOOK = [None]
+
+
+def _crash(msg):
+    if CRASH_HOOK[0] is not None:
+        CRASH_HOOK[0]()
+    raise InjectedPluginError(msg)
+
+
 def _rows(chunk_i, per_chunk):
     r = np.zeros(per_chunk, dtype=ROW_DT)
     base = chunk_i * per_chunk
@@ -56,7 +66,7 @@ def make_plugins(rechunk, n_chunks=3, per_chunk=2, tiny_target=True, crash_at=No
 
         def compute(self, chunk_i):
             if crash == ("recs", chunk_i):
-                raise InjectedPluginError("injected failure in recs chunk %d" % chunk_i)
+                _crash("injected failure in recs chunk %d" % chunk_i)
             r = _rows(chunk_i, 0 if empty_chunk == chunk_i else per_chunk)
             t0 = chunk_i * per_chunk * GAP
             return self.chunk(start=t0, end=t0 + per_chunk * GAP, data=r)
@@ -76,7 +86,7 @@ def make_plugins(rechunk, n_chunks=3, per_chunk=2, tiny_target=True, crash_at=No
             i = self._n
             self._n += 1
             if crash == ("sums", i):
-                raise InjectedPluginError("injected failure in sums chunk %d" % i)
+                _crash("injected failure in sums chunk %d" % i)
             out = np.zeros(len(recs), dtype=ROW_DT)
             out["time"] = recs["time"]
             out["endtime"] = recs["endtime"]
@@ -101,13 +111,14 @@ def make_plugins(rechunk, n_chunks=3, per_chunk=2, tiny_target=True, crash_at=No
             i = self._n
             self._n += 1
             if crash == ("kinds", i):
-                raise InjectedPluginError("injected failure in kinds chunk %d" % i)
+                _crash("injected failure in kinds chunk %d" % i)
             a = np.zeros(len(sums), dtype=ROW_DT)
             a["time"] = sums["time"]
             a["endtime"] = sums["endtime"]
             a["id"] = sums["id"] * 10 + 2
-            b = a[::2].copy()
-            b["id"] = a["id"][::2] + 1
+            # (chunking-independent: the selection looks at the row, not at its position in the chunk)
+            b = a[(sums["id"] // 10) % 2 == 0].copy()
+            b["id"] = b["id"] + 1
             return dict(kinds=a, lone=b)
 
     return Recs, Sums, Cls
@@ -129,7 +140,7 @@ def context(path, graph, **kw):
     """A fresh Context on directory `path` (None: no storage at all)."""
     storage = [strax.DataDirectory(path)] if path is not None else []
     st = strax.Context(storage=storage, register=plugin_classes(graph, **kw),
-                       config=dict(), allow_lazy=True, timeout=20, saver_timeout=20)
+                       config=dict(), allow_lazy=True, timeout=600, saver_timeout=600)
     return st
 
 
